@@ -60,6 +60,17 @@ func (c *fdCapture) size(f *os.File) int64 {
 
 func (c *fdCapture) mark() (int64, int64) { return c.size(c.f1), c.size(c.f2) }
 
+// tail returns what was appended to f since the size mark.
+func (c *fdCapture) tail(f *os.File, from int64) []byte {
+	n := c.size(f) - from
+	if n <= 0 {
+		return nil
+	}
+	b := make([]byte, n)
+	_, _ = f.ReadAt(b, from)
+	return b
+}
+
 func (c *fdCapture) since(m1, m2 int64) (b1, b2 []byte) {
 	rd := func(f *os.File, from int64) []byte {
 		n := c.size(f) - from
@@ -221,6 +232,7 @@ type c03env struct {
 	fds   *fdCapture
 	lvlS  map[string]bool // writer id -> LevelSettable
 	seq   int
+	file6 *os.File
 }
 
 func newC03env() (*c03env, error) {
@@ -234,6 +246,14 @@ func newC03env() (*c03env, error) {
 	}
 	e.pool = append(e.pool, mon.NewPtr(e.log, "W5"))
 	e.shape = append(e.shape, "ptr-plain")
+	// W6: a real *os.File (the README's "tty+file" example); observed by reading the file back
+	f6, ferr := os.OpenFile("w6.out", os.O_RDWR|os.O_CREATE|os.O_TRUNC|os.O_APPEND, 0o644)
+	if ferr != nil {
+		return nil, ferr
+	}
+	e.file6 = f6
+	e.pool = append(e.pool, f6)
+	e.shape = append(e.shape, "*os.File")
 	var err error
 	e.fds, err = captureFds()
 	if err != nil {
@@ -367,6 +387,7 @@ func (e *c03env) probeAll(lg *slog.Entry, model *wmodel, rp func(k string, n int
 		id := fmt.Sprintf("probe-%d-", e.seq)
 		e.log.Reset()
 		m1, m2 := e.fds.mark()
+		m6 := e.fds.size(e.file6)
 		lg.LogAttrs(bg, sev, id)
 		evs := e.log.Events()
 		b1, b2 := e.fds.since(m1, m2)
@@ -384,6 +405,9 @@ func (e *c03env) probeAll(lg *slog.Entry, model *wmodel, rp func(k string, n int
 		}
 		got[wSTDOUT] = bytes.Count(b1, []byte(id))
 		got[wSTDERR] = bytes.Count(b2, []byte(id))
+		if b6 := e.fds.tail(e.file6, m6); len(b6) > 0 {
+			got["W6"] = bytes.Count(b6, []byte(id))
+		}
 		rp("write_events", int64(len(evs)))
 		rp("fallback_bytes", int64(len(b1)+len(b2)))
 		// expected
@@ -509,10 +533,10 @@ func (e *c03env) judge(c *Ctx, idx int, kind string, viaOpts bool, ops []wop) {
 
 func c03alphabet(full bool) []wop {
 	var a []wop
-	ws := []int{0, 1, 2}
+	ws := []int{0, 1, 2, 6}
 	lvls := []slog.Level{slog.InfoLevel, slog.ErrorLevel}
 	if full {
-		ws = []int{0, 1, 2, 3, 4, 5}
+		ws = []int{0, 1, 2, 3, 4, 5, 6}
 		lvls = []slog.Level{slog.InfoLevel, slog.ErrorLevel, slog.DebugLevel, slog.AlwaysLevel, slog.FailLevel, lvlCustErr, lvlCustPlain, slog.Level(88)}
 	}
 	for _, n := range []string{"SetWriter", "AddWriter", "RemoveWriter", "SetErrorWriter", "AddErrorWriter", "RemoveErrorWriter"} {
@@ -520,7 +544,7 @@ func c03alphabet(full bool) []wop {
 			a = append(a, wop{name: n, w: w})
 		}
 	}
-	lw := []int{0, 2}
+	lw := []int{0, 2, 6}
 	if full {
 		lw = ws
 	}
